@@ -615,7 +615,9 @@ func (fr *Frame) convert(x *ssa.Convert) {
 				famLeafSort[lf.Arr] = lf.Sort
 				arr := fr.q.get(fr.cur.st, lf.Arr)
 				fr.q.assume(fr.cur.reach, fmt.Sprintf("(= (slen %s) %s)", s, a.C[1]))
-				fr.q.assume(fr.cur.reach, fmt.Sprintf("(forall ((i Int)) (! (=> (and (<= 0 i) (< i %s)) (= (sat %s i) (select %s (+ %s i)))) :pattern ((sat %s i))))", a.C[1], s, arr, a.C[0], s))
+				if !fr.q.optsNoContents() {
+					fr.q.assume(fr.cur.reach, fmt.Sprintf("(forall ((i Int)) (! (=> (and (<= 0 i) (< i %s)) (= (sat %s i) (select %s (+ %s i)))) :pattern ((sat %s i))))", a.C[1], s, arr, a.C[0], s))
+				}
 			}
 			fr.vals[x] = Val{C: []string{s}}
 			return
@@ -631,7 +633,9 @@ func (fr *Frame) convert(x *ssa.Convert) {
 				famLeafSort[lf.Arr] = lf.Sort
 				old := fr.q.get(fr.cur.st, lf.Arr)
 				na := fr.q.fresh(smtSym(lf.Arr)+"@cv", famSort(fr.q, lf.Arr))
-				fr.q.assume(fr.cur.reach, fmt.Sprintf("(forall ((i Int)) (! (= (select %s i) (ite (and (<= %s i) (< i (+ %s %s))) (sat %s (- i %s)) (select %s i))) :pattern ((select %s i))))", na, p, p, n, a.C[0], p, old, na))
+				if !fr.q.optsNoContents() {
+					fr.q.assume(fr.cur.reach, fmt.Sprintf("(forall ((i Int)) (! (= (select %s i) (ite (and (<= %s i) (< i (+ %s %s))) (sat %s (- i %s)) (select %s i))) :pattern ((select %s i))))", na, p, p, n, a.C[0], p, old, na))
+				}
 				fr.cur.st.v[lf.Arr] = na
 				fr.setVal(x, Val{C: []string{p, n, n}})
 				return
@@ -888,6 +892,10 @@ func (fr *Frame) zeroRange(st *State, a, n string, elem types.Type) {
 		famLeafSort[lf.Arr] = lf.Sort
 		old := fr.q.get(st, lf.Arr)
 		na := fr.q.fresh(smtSym(lf.Arr)+"@z", famSort(fr.q, lf.Arr))
+		if fr.q.optsNoContents() {
+			st.v[lf.Arr] = na
+			continue
+		}
 		fr.q.assume(fr.cur.reach, fmt.Sprintf("(forall ((i Int)) (! (= (select %s i) (ite (and (<= %s i) (< i (+ %s %s))) %s (select %s i))) :pattern ((select %s i))))",
 			na, a, a, sMulC(n, l.cells), zeroOf(lf.Sort), old, na))
 		st.v[lf.Arr] = na
